@@ -28,7 +28,7 @@ def seq_bytes(bs):
 class Stats:
     def __init__(self):
         self.n = {'N1': 0, 'N2': 0, 'N3': 0, 'N5': 0, 'N6': 0, 'wrapped_items': 0, 'contracts': 0,
-                  'external_body': 0, 'ghost_items': 0}
+                  'external_body': 0, 'ghost_items': 0, 'N7': 0}
         self.external_body = []   # (file, fn, discharged_by)
         self.verified_fns = []    # (file, fn)
         self.records = []         # contracted fns: dict(rel, scopes, fn_rx, fname, external, discharged_by)
@@ -225,6 +225,99 @@ class FileSplice:
                % (m.group(1), name, name, seq_bytes(bs), lit_bytes(bs)))
         self.stats.add('N3')
         self._set(self.s[:it.header] + new + self.s[it.end:])
+
+    def hoist(self, scopes, fn_rx, new_name, self_ty, trait=None, generics='', where='', vis='pub(crate) '):
+        """N7: move the body of a trait-impl method verbatim into a free function placed right after the
+        impl item (Verus' trait-cycle check rejects impl methods that instantiate generics with the type
+        being implemented).  Textual substitutions: `Self::` -> `<self_ty as trait>::`, `Self` -> self_ty,
+        `self` -> `this`.  The impl method becomes a one-line delegation."""
+        impl_scopes, impl_rx = list(scopes[:-1]), scopes[-1]
+        it = self.locate(scopes, fn_rx)
+        s, mask = self.s, self.mask
+        fm = find_code(s, mask, r'\bfn\s+(\w+)', it.header, it.body_open)
+        p_open = next_code_char(s, mask, '(', fm.end(), it.body_open)
+        p_close = match_close(s, mask, p_open)
+        if not it.has_body:
+            raise Unsupported('%s: cannot hoist a declaration %s' % (self.rel, fn_rx))
+        # generics of the method itself
+        own_gen = s[fm.end():p_open].strip()
+        params = s[p_open + 1:p_close]
+        tail = s[p_close + 1:it.body_open]
+        body = s[it.body_open:it.end]
+
+        def sub_self(txt):
+            m = code_mask(txt)
+            out, i = [], 0
+            rx = re.compile(r'\bSelf(::)?|\bself\b')
+            for mm in rx.finditer(txt):
+                if not m[mm.start()]:
+                    continue
+                out.append(txt[i:mm.start()])
+                tok = mm.group(0)
+                if tok == 'Self::':
+                    out.append(('<%s as %s>::' % (self_ty, trait)) if trait else (self_ty + '::'))
+                elif tok == 'Self':
+                    out.append(self_ty)
+                else:
+                    out.append('this')
+                i = mm.end()
+            out.append(txt[i:])
+            return ''.join(out)
+        # receiver
+        pm = re.match(r'\s*(&\s*mut\s+self|&\s*self|self)\s*,?', params)
+        args = []
+        new_params = params
+        if pm:
+            recv = re.sub(r'\s+', ' ', pm.group(1))
+            ty = {'&self': '&' + self_ty, '& self': '&' + self_ty, '&mut self': '&mut ' + self_ty, 'self': self_ty}[recv]
+            new_params = 'this: %s, ' % ty + params[pm.end():]
+            args.append('self')
+        # argument names of the remaining parameters
+        rest = params[pm.end():] if pm else params
+        depth = 0; cur = ''
+        parts = []
+        for ch in rest:
+            if ch in '<([':
+                depth += 1
+            elif ch in '>)]':
+                depth -= 1
+            if ch == ',' and depth == 0:
+                parts.append(cur); cur = ''
+            else:
+                cur += ch
+        if cur.strip():
+            parts.append(cur)
+        for prt in parts:
+            prt = re.sub(r'//[^\n]*', '', prt).strip()
+            if not prt:
+                continue
+            nm = re.match(r'(?:mut\s+)?(\w+)\s*:', prt)
+            if not nm:
+                raise Unsupported('%s: cannot parse parameter %r of %s' % (self.rel, prt, fn_rx))
+            args.append(nm.group(1))
+        g = generics.strip('<>')
+        og = own_gen.strip('<>')
+        allg = ', '.join(x for x in (g, og) if x)
+        gen_txt = '<%s>' % allg if allg else ''
+        tail_n = sub_self(tail).rstrip()
+        if where:
+            if re.search(r'\bwhere\b', tail_n):
+                tail_n = tail_n.rstrip().rstrip(',') + ', ' + where
+            else:
+                tail_n += ' where ' + where
+        free = ('\n/// [verif N7] body of `%s` hoisted verbatim out of its trait impl\n%sfn %s%s(%s)%s %s\n'
+                % (fm.group(1), vis, new_name, gen_txt, sub_self(new_params), tail_n, sub_self(body)))
+        turbofish = ''
+        call_gen = [x.split(':')[0].strip() for x in allg.split(',')] if allg else []
+        call_gen = [x for x in call_gen if x and not x.startswith("'")]
+        if call_gen:
+            turbofish = '::<%s>' % ', '.join(call_gen)
+        deleg = '{ %s%s(%s) }' % (new_name, turbofish, ', '.join(args))
+        self._set(s[:it.body_open] + deleg + s[it.end:])
+        # place the free fn after the enclosing impl item
+        imp = self.locate(impl_scopes, impl_rx)
+        self._set(self.s[:imp.end] + '\n' + free + self.s[imp.end:])
+        self.stats.add('N7')
 
     def loop_invariant(self, scopes, fn_rx, loop_rx, inv_text):
         """N5: insert `invariant ...` between a loop header and its `{` (ghost only)"""
